@@ -480,9 +480,9 @@ func (w *world) recordApply(n *node, req *pb.RaftCmdRequest, resp *pb.RaftCmdRes
 	if w.tbuf != nil {
 		// C28: the client visits secondary regions in Go map order, so lines are buffered and
 		// sorted per transaction and carry no request id (ids depend on that order).
-		*w.tbuf = append(*w.tbuf, fmt.Sprintf("apply s%d.%d r%d #%d %s err=%v", n.id, n.inc, region, pos, tag, err != nil))
+		*w.tbuf = append(*w.tbuf, fmt.Sprintf("apply s%d.%d r%d %s err=%v", n.id, n.inc, region, tag, err != nil))
 	} else {
-		w.res.Trace.Add("apply s%d.%d r%d #%d %s id=%d err=%v", n.id, n.inc, region, pos, tag, req.GetHeader().GetRequestId(), err != nil)
+		w.tr("apply s%d.%d r%d #%d %s id=%d err=%v", n.id, n.inc, region, pos, tag, req.GetHeader().GetRequestId(), err != nil)
 	}
 	w.res.Checks++
 	key := fmt.Sprintf("%d/%s", region, tag)
@@ -563,15 +563,15 @@ func (w *world) process(ev *event) {
 		m := ev.msg
 		switch {
 		case n.down:
-			w.res.Trace.Add("lost(down) %d->%d %v", ev.from+1, ev.store+1, m.Type)
+			w.tr("lost(down) %d->%d %v", ev.from+1, ev.store+1, m.Type)
 		case w.links[ev.from][ev.store].cut:
 			w.res.Faults["msg_cut"]++
-			w.res.Trace.Add("lost(cut) %d->%d %v", ev.from+1, ev.store+1, m.Type)
+			w.tr("lost(cut) %d->%d %v", ev.from+1, ev.store+1, m.Type)
 		default:
-			w.res.Trace.Add("dlv %d->%d %v t%d i%d c%d n%d rej=%v", m.From, m.To, m.Type, m.Term, m.Index, m.Commit, len(m.Entries), m.Reject)
+			w.tr("dlv %d->%d %v t%d i%d c%d n%d rej=%v", m.From, m.To, m.Type, m.Term, m.Index, m.Commit, len(m.Entries), m.Reject)
 			if err := n.st.Step(m); err != nil {
 				w.res.Probes["step_error"]++
-				w.res.Trace.Add("step err")
+				w.tr("step err")
 			}
 		}
 	case evTick:
@@ -652,11 +652,11 @@ func (w *world) observe() {
 			}
 			if n.isLeader[rg.ID] && !lead {
 				n.lostAt[rg.ID] = w.step
-				w.res.Trace.Add("lead- s%d r%d", n.id, rg.ID)
+				w.tr("lead- s%d r%d", n.id, rg.ID)
 			}
 			if !n.isLeader[rg.ID] && lead {
 				w.res.Faults["leader_elected"]++
-				w.res.Trace.Add("lead+ s%d r%d t%d", n.id, rg.ID, n.term[rg.ID])
+				w.tr("lead+ s%d r%d t%d", n.id, rg.ID, n.term[rg.ID])
 			}
 			n.isLeader[rg.ID] = lead
 		}
@@ -698,6 +698,8 @@ func (w *world) newClient(name string) *cliTask {
 		}
 	})
 	w.clients = append(w.clients, c)
+	// Let the task goroutine reach its initial park before anybody tries to release it.
+	synctest.Wait()
 	return c
 }
 
@@ -799,7 +801,7 @@ func (w *world) crash(idx int) bool {
 		}
 	}
 	w.nodes[idx] = ph
-	w.res.Trace.Add("crash s%d", idx+1)
+	w.tr("crash s%d", idx+1)
 	return true
 }
 
@@ -821,7 +823,7 @@ func (w *world) restart(idx int) bool {
 	n.lostAt = ph.lostAt
 	w.nodes[idx] = n
 	synctest.Wait()
-	w.res.Trace.Add("restart s%d inc%d", idx+1, n.inc)
+	w.tr("restart s%d inc%d", idx+1, n.inc)
 	return true
 }
 
